@@ -59,6 +59,26 @@ Theorem C12_match_against :
     sh_ccnt s <= lenN (resting l) + prog_bc progs /\ B < W /\ lenN (resting l) + prog_bc progs < W.
 Proof. exact init_counters. Qed.
 
+(* every value a reader's load returns, for the implementation's per-order function and a
+   well-formed initial configuration: no abstract invariant is left among the hypotheses *)
+Theorem C12_loads_match_against :
+  forall l gen progs sched, wf_progs l progs ->
+  forall i x v, In (i, ELoad x v) (snd (exec match_against sched (init_config l gen progs))) ->
+    v <= load_bound (init_config l gen progs) x /\ v < W.
+Proof.
+  intros l gen progs sched Hwf.
+  exact (exec_loads match_against match_against_I_cons sched _ (init_Inv l gen progs Hwf)).
+Qed.
+
+(* ... and at every instant (after every prefix of every schedule) *)
+Theorem C12_every_prefix_match_against :
+  forall l gen progs sched n, wf_progs l progs ->
+    let s := cf_sh (fst (exec match_against (firstn n sched) (init_config l gen progs))) in
+    let B := sumv (resting l) + sumh (resting l) + prog_budget (price l) progs in
+    sh_cvis s <= B /\ sh_chid s <= B /\ sh_cvis s + sh_chid s <= B /\
+    sh_ccnt s <= lenN (resting l) + prog_bc progs /\ B < W /\ lenN (resting l) + prog_bc progs < W.
+Proof. intros l gen progs sched n. exact (init_counters l gen progs (firstn n sched)). Qed.
+
 (* ---- non-vacuity ---- *)
 Example C12_example :
   Inv ex_c0 /\ Supplied ex_c0 = 43 /\ OrdersB ex_c0 = 4 /\
@@ -87,4 +107,6 @@ Print Assumptions C12_every_prefix.
 Print Assumptions C12_prefix_is_run.
 Print Assumptions C12_loads.
 Print Assumptions C12_match_against.
+Print Assumptions C12_loads_match_against.
+Print Assumptions C12_every_prefix_match_against.
 Print Assumptions C12_example.
